@@ -12,14 +12,25 @@ TRUSTED = [
     "(digit-wise trinomial / pentanomial folding), fb_srt_quick (even/odd splitting; the multiplication by sqrt(z) is the field product), "
     "fb_trc_quick, fb_itr_quick (table of an additive map), fb_inv_basic and fb_inv_itoht (exponent chains, over any commutative monoid; "
     "the chain is read from the library and must satisfy ChainValid and end at m - 1), fb_slv (half-trace plus trace normalisation; the "
-    "table walk of fb_slvn_low is not mirrored); eb_add_basic / eb_add_projc (mixed, general) / eb_sub_* / eb_dbl_basic / eb_dbl_projc / "
+    "table walk of fb_slvn_low is not mirrored); fb_inv_sim (Model/FbInv.lean invSim: forward products, one call of fb_inv, backward pass; "
+    "Props.C16.fb_inv_sim_correct for every list length >= 1 and any fb_inv meeting its contract: error when an element is zero, else every "
+    "output is the reduced inverse of its input; the driver plugs in the specification's inverse for the inner fb_inv); eb_add_basic / eb_add_projc (mixed, general) / eb_sub_* / eb_dbl_basic / eb_dbl_projc / "
     "eb_neg_* / eb_norm / eb_hlv / eb_frb (one let per C statement, proved over an abstract field of characteristic two); the loops of "
     "eb_mul_basic, eb_mul_lwnaf, eb_mul_rwnaf, eb_mul_fix_lwnaf (ordinary and Koblitz, tables of eb_tab for w = 4, 5), eb_mul_lodah (group-level "
     "ladder), eb_mul_fix_basic, eb_mul_fix_combs / eb_mul_gen with the recodings bn_rec_naf, bn_rec_tnaf_mod, bn_rec_tnaf (proved over an "
     "abstract group / module; the hypothesis-level facts - order of the point, tau^m P = P - are not derived from the curve)",
     "class B (proved over an abstract group, compared as whole functions but not executed as a separate model column): eb_mul_halve "
     "(cofactor-2 branch), eb_mul_sim_trick / inter (ordinary) / joint",
-    "class C (compared with the specification on the presented lines only): fb_inv_binar / exgcd / almos / bruch / ctaia / lower, fb_inv_sim, "
+    "class A-partial (value-level models over naturals-as-GF(2)[z] mirroring the C loops - halving loops, exits, swap, the comparison by "
+    "digit count and top digit, the degree-difference shifts and the final conditional addition of f of fb_inv_exgcd - executed as the model "
+    "column on every presented line; proved: zero is reported and WHATEVER the model returns is reduced, satisfies a*c = 1 and hence equals the specification's inverse, "
+    "Props.C16.fb_inv_binar_partial / fb_inv_almos_partial / fb_inv_exgcd_partial / fb_inv_euclid_value; NOT proved: that the loops end "
+    "within the fuel 2(bitLen a + bitLen f) + 2 - a line on which a model runs out of fuel is reported as a model difference; the digit arrays, lengths lu / lv / l1 / l2 and carries of the C code are not mirrored): "
+    "fb_inv_binar, fb_inv_almos, fb_inv_exgcd",
+    "executed models without a theorem (Model/FbInv.lean invBruch / invCtaia: the fixed 2m / 2m - 1 passes, the tests of coefficient m, the "
+    "delta / d bookkeeping, the masked digit loop with its update order, shifts truncated to the digit array; model column on every line, "
+    "correctness only through the defining equation a*c = 1 checked on the presented lines): fb_inv_bruch, fb_inv_ctaia",
+    "class C (compared with the specification on the presented lines only): fb_inv_lower, "
     "fb_sqrn_low (shift-and-mask spreading), fb_rdc_basic, fb_mul_dig / fb_mul1_low / fb_rdc1_low, fb_exp_basic / slide / monty, fb_read_bin / "
     "fb_write_bin, fb2_mul / fb2_sqr / fb2_inv / fb2_slv / fb2_mul_nor, eb_mul_halve on the cofactor-4 (Koblitz) curve, eb_mul_fix_combd, "
     "the Koblitz eb_mul_sim_inter / eb_mul_sim_gen, eb_mul_dig, the y-recovery at the end of eb_mul_lodah and the randomisation of its projective start values (the Mdouble / Madd formulas are proved in Lemmas/EbLadder.lean, the ladder is executed at group level), "
@@ -49,7 +60,7 @@ RULE = ("field elements 0, 1, z, z^(m-1), all-ones, sparse, single-digit, digit-
 
 USES_GENERATED = False
 EXTRA_THEOREM_MODULES = ["RelicVerif.Lemmas.Gf2Poly", "RelicVerif.Lemmas.Gf2Field", "RelicVerif.Lemmas.BinFast", "RelicVerif.Lemmas.Fb",
-                         "RelicVerif.Lemmas.EbFormulas", "RelicVerif.Lemmas.EbLadder", "RelicVerif.Lemmas.Tnaf", "RelicVerif.Lemmas.EbMul", "RelicVerif.Lemmas.NafTop"]
+                         "RelicVerif.Lemmas.FbInvSim", "RelicVerif.Lemmas.FbInvEuclid", "RelicVerif.Lemmas.EbFormulas", "RelicVerif.Lemmas.EbLadder", "RelicVerif.Lemmas.Tnaf", "RelicVerif.Lemmas.EbMul", "RelicVerif.Lemmas.NafTop"]
 
 FIELDS = {"base": [19, 20]}          # NIST_283 (the configured polynomial), SQRT_283 (the square-root friendly one of the same degree)
 CURVES = {"base": [8, 9]}            # NIST_B283, NIST_K283
@@ -283,6 +294,29 @@ def gen_field(rng, gf, count, w=64):
                 out.append("fbu %s %d %x" % (v, rng.below(2), uni))
         if others:
             out.append("fbu %s %d %x" % (others[d % len(others)], rng.below(2), uni))
+    # Euclidean inversions (modelled: binar / almos / exgcd): boundary operands of the halving loops, of the digit-wise comparison and of the
+    # degree differences: 1, z, z + 1, f - z^m, all ones, z^(w k) and its neighbours, top-digit patterns, long runs of zero low coefficients
+    fl = gf.f ^ (1 << m)
+    bnd = [1, 2, 3, fl, fl ^ 1, fl << 1, (1 << m) - 1, (1 << m) - 2, (1 << (m - 1)) | 1, 1 << (m - 1), gf.f >> 1, (gf.f >> 1) ^ 1]
+    for k in range(1, (m + w - 1) // w + 1):
+        for e in (1 << (w * k), (1 << (w * k)) - 1, (1 << (w * k)) | 1, 1 << (w * k - 1), (1 << (w * k - 1)) | 1, ((1 << w) - 1) << (w * (k - 1))):
+            if 0 < e < (1 << m):
+                bnd.append(e)
+    for a in bnd:
+        for v in ("inv_binar", "inv_almos", "inv_exgcd"):
+            out.append("fbu %s %d %x" % (v, rng.below(2), a))
+    # fb_inv_sim (modelled): every list length the harness takes, both alias patterns, zero first / middle / last / everywhere, ones, equal operands
+    for n in range(1, 17):
+        els = [felem(rng, gf) or 1 for _ in range(n)]
+        out.append("fb_invsim %d %d %s" % (n % 2, n, " ".join("%x" % e for e in els)))
+        for zpos in sorted({0, n // 2, n - 1}):
+            if n <= 4 or (n + zpos) % 5 == 0:
+                z = list(els); z[zpos] = 0
+                out.append("fb_invsim %d %d %s" % ((n + zpos) % 2, n, " ".join("%x" % e for e in z)))
+    for n in (1, 2, 3, 16):
+        for els in ([1] * n, [0] * n, [els[0]] * n, [2, 1 << (m - 1)] * (n // 2) + [3] * (n % 2), [(1 << m) - 1] * n):
+            out.append("fb_invsim %d %d %s" % (n % 2, n, " ".join("%x" % e for e in els)))
+            out.append("fb_invsim %d %d %s" % (1 - n % 2, n, " ".join("%x" % e for e in els)))
     for _ in range(count):
         k = rng.below(100)
         if k < 22:
